@@ -2,11 +2,14 @@ package checks
 
 import (
 	"fmt"
+	"os"
 	"runtime"
 	"runtime/debug"
 	"sort"
+	"strconv"
 	"sync"
 	"sync/atomic"
+	"time"
 )
 
 // parallelFor runs fn(i) for i in [0,n) on all cores; chunks are handed out dynamically.
@@ -65,3 +68,16 @@ func try(f func()) (p interface{}, stack string) {
 type syncMutex = sync.Mutex
 
 func sortStrings(s []string) { sort.Strings(s) }
+
+// deadlineFor gives each exploration an internal wall-clock budget; hitting it ends the run with exit 0,
+// exhaustive:false and whatever was fully covered (VERIF_DEADLINE_MIN overrides the default).
+func deadlineFor(tier string) time.Time {
+	min := 6
+	if tier == "thorough" {
+		min = 25
+	}
+	if v, err := strconv.Atoi(os.Getenv("VERIF_DEADLINE_MIN")); err == nil && v > 0 {
+		min = v
+	}
+	return time.Now().Add(time.Duration(min) * time.Minute)
+}
